@@ -831,7 +831,13 @@ pub enum AlgSpec {
 }
 
 impl AlgSpec {
+    /// the algorithm as the application obtains it: deserialised from its configuration form
+    /// (`appbuild::alg_json`, what an `[algorithm]` section says); direct construction only if
+    /// that form were rejected
     pub fn to_impl(&self) -> SearchAlgorithm {
+        serde_json::from_value(crate::appbuild::alg_json(self)).unwrap_or_else(|_| self.to_impl_direct())
+    }
+    pub fn to_impl_direct(&self) -> SearchAlgorithm {
         match self {
             AlgSpec::Dijkstra => SearchAlgorithm::Dijkstra,
             AlgSpec::AStar { wf } => SearchAlgorithm::AStarAlgorithm {
@@ -844,7 +850,7 @@ impl AlgSpec {
                 term,
             } => SearchAlgorithm::KspSingleVia {
                 k: *k,
-                underlying: Box::new(underlying.to_impl()),
+                underlying: Box::new(underlying.to_impl_direct()),
                 similarity: sim.as_ref().map(|s| s.to_impl()),
                 termination: term.as_ref().map(|t| t.to_impl()),
             },
